@@ -15,7 +15,9 @@
 (*   minor: Seq([struct, alleles, novel, tie, sols: Seq([score, nadd,       *)
 (*               copies: Seq(<<major, minor, added, missing>>)])]),         *)
 (*   final: Seq([key, score]) (reads only: what genotype() returned),       *)
-(*   tol, band: score tolerance and three-valued band (units of 1e-6).      *)
+(*   tol, band, mband: score tolerance and three-valued bands (units of     *)
+(*   1e-6) for structure / major scores (band) and refined / final scores   *)
+(*   (mband: with read phasing on it also covers the read-phase term).      *)
 (* Per event: well-formedness against the event's own catalogue.  Across    *)
 (* the family (spec BuildIndep!BuildFree): same structures, same major      *)
 (* solutions, same minor solutions, same scores.                            *)
@@ -89,14 +91,14 @@ MinorCmp(e, b) ==      \* first difference among the refined solutions
         diffs == {k \in K : LET x == MinOf(e, k).sols
                                 y == MinOf(b, k).sols
                             IN Len(x) # Len(y) \/ \E j \in DOMAIN x : x[j].copies # y[j].copies}
-        slack == IF e.kind = "table" THEN e.tol ELSE e.band
+        slack == IF e.kind = "table" THEN e.tol ELSE e.mband
         tieOK(k) == LET x == MinOf(e, k).sols
                         y == MinOf(b, k).sols
                     IN Len(x) = Len(y) /\ \A j \in DOMAIN x :
                           Abs(x[j].score - y[j].score) <= slack + Max2(x[j].nadd, y[j].nadd) * MinOf(e, k).tie
         sc == {LET x == MinOf(e, k).sols
                    y == MinOf(b, k).sols
-               IN Worst({Cmp(x[j].score, y[j].score, e.tol, e.band) : j \in DOMAIN x}) : k \in K \ diffs}
+               IN Worst({Cmp(x[j].score, y[j].score, e.tol, e.mband) : j \in DOMAIN x}) : k \in K \ diffs}
         scTie == \A k \in K \ diffs : tieOK(k)
     IN
     IF diffs # {} THEN (IF ~\A k \in diffs : tieOK(k) THEN "BuildFree(minor)"
@@ -120,7 +122,7 @@ Compare(e, b) ==
     IF mn # "" /\ mn \notin {"UNDECIDED:ScoreBand(minor)", "UNDECIDED:MinorTie(reads)"} THEN mn
     ELSE IF mn = "UNDECIDED:MinorTie(reads)" THEN mn      \* the final result inherits the tie
     ELSE IF FinKeys(e) # FinKeys(b) THEN "BuildFree(genotype)"
-    ELSE LET fs == Worst({Cmp(FinScore(e, k), FinScore(b, k), e.tol, e.band) : k \in FinKeys(e)}) IN
+    ELSE LET fs == Worst({Cmp(FinScore(e, k), FinScore(b, k), e.tol, e.mband) : k \in FinKeys(e)}) IN
     IF fs = "X" THEN "ScoreBuildFree(genotype)"
     ELSE IF cs = "U" \/ ms = "U" \/ fs = "U" \/ mn # "" THEN "UNDECIDED:ScoreBand"
     ELSE ""
